@@ -25,7 +25,7 @@ ANCHORS = ["goose/da.py:da_step", "goose/da.py:da_init", "goose/da.py:da_finaliz
 ASSUMPTIONS = ["across boundaries of frozen epochs the step size is re-derived as exp(log eps): compared with rtol 1e-5",
                "after a slow-adaptation epoch HMC/NUTS rescale the step by sqrt(tr M_old / tr M_new): that factor is accepted"]
 WORKERS = 16
-TIMEOUT = {"quick": 1200, "thorough": 3600}
+TIMEOUT = {"quick": 1500, "thorough": 10800}
 
 
 class S:
